@@ -2,16 +2,17 @@ SPECIFICATION Spec
 CONSTANTS
   LongLen = 5
   Layouts <- MCLayouts
-  BaseLens = {1, 4, 6}
+  BaseLens = {1, 4, 6, 9}
   Wipes = {256, 119}
   Variants = {"asis", "fixed"}
   Cuts = FALSE
-  Kinds = {"T2"}
+  Kinds = {"T2", "T1S"}
   Sizes = {3}
   Pads = {1}
   Props = {0}
-  CtlFroms = {2, 3, 4, 11, 22}
-  CtlSizes = {1, 3}
+  CtlFroms = {2, 3, 4, 6, 11, 22}
+  MemSizes = {1, 3, 0}
+  LockBits = {9, 12}
   CtlTypes = {1, 2}
   TwoCtl = FALSE
   OldLens = {1}
@@ -20,4 +21,9 @@ INVARIANT W_SkipAfter
 INVARIANT W_SkipBeyond
 INVARIANT W_FormatWipe
 INVARIANT W_Escape
+INVARIANT W_OddLock
+INVARIANT W_Mem256
+INVARIANT W_Exp2
+INVARIANT W_Exp3
+INVARIANT W_Exp4
 CHECK_DEADLOCK FALSE
